@@ -161,7 +161,7 @@ for i in _gi.guard_shape_instances():
       cost=2 + i["n"], thorough_only_for=["C09"])
 for n, ops in [("step_chain_consts", "MARK, EMPTY_TUPLE, NONE, EMPTY_LIST, EMPTY_DICT, NEWTRUE"),
                ("step_chain_consts2", "NEWFALSE, EMPTY_SET, NEXT_BUFFER, EXT1, EXT2, EXT4"),
-               ("step_chain_ints", "INT, LONG, BININT, BININT1, BININT2, LONG1, LONG4"),
+               ("step_chain_ints_bin", "BININT, BININT1, BININT2, LONG1, LONG4"),
                ("step_chain_floats_bytes", "FLOAT, BINFLOAT, BINBYTES, SHORT_BINBYTES, BINBYTES8, BYTEARRAY8"),
                ("step_chain_bytes2", "BINSTRING, SHORT_BINSTRING")]:
     H(n, "step.rs", "STEP(chain)", ["C17", "C01", "C03", "C09", "C11"], "quick",
@@ -175,7 +175,7 @@ for i in _gi.step_instances():
       "%s from every state of depth %d in which can_emit holds: %s (m <= 4); well-formed argument bytes (%s)"
       % (i["opname"], i["n"], _ALPH, i["arg"]), stubs=STEP_STUBS,
       funcs=["Generator::process_stack_ops(%s)" % i["opname"], "Generator::{push,pop,peek}", "Stack::{push,pop}"], cost=2 + 2 * i["n"],
-      thorough_only_for=[] if borrow else ["C09", "C11"])
+      thorough_only_for=([] if borrow else ["C09", "C11"]) + (["C01", "C03", "C17"] if i["opname"] in ("PUT", "BINPUT", "LONG_BINPUT") else []))
 
 # ---------------------------------------------------------------------------------------------------
 # EMIT — emit_and_process per opcode, process_stack_ops replaced by a recorder
@@ -203,8 +203,9 @@ for i in _gi.emit_instances():
     H(i["name"], "emit.rs", "EMIT", props, i["tier"], "%s: %s; memo size m <= 70000; rate in [0,1]; flags symbolic" % (o, i["bound"]),
       stubs=st, funcs=["Generator::emit_and_process(%s)" % o, "Generator::{emit_int,emit_string,emit_bytes,emit_global,emit_opcode,mutate_*,create_snapshot,post_process_emission}"],
       cost=3 if i["tier"] == "quick" else 8,
-      thorough_only_for=([] if o in ("NONE", "APPEND", "BINBYTES", "PUT") else ["C01", "C09", "C17"])
-      + ([] if o in ("NONE", "APPEND", "BINBYTES", "PUT", "BINPUT", "LONG_BINPUT", "SHORT_BINBYTES", "SHORT_BINSTRING", "INST", "GLOBAL", "EXT1") else ["C11"]))
+      thorough_only_for=([] if o in ("NONE", "APPEND", "BINBYTES") else ["C01", "C09", "C17"])
+      + ([] if o in ("NONE", "APPEND", "BINBYTES", "BINPUT", "LONG_BINPUT", "SHORT_BINBYTES", "SHORT_BINSTRING", "INST", "GLOBAL", "EXT1") else ["C11"])
+      + (["C04", "C05", "C10"] if o == "PUT" else []))
 
 for n, op, b in [("emit_short_binbytes_maxlen_stringlen", "SHORT_BINBYTES", "string-length mutator at symbolic rate"),
                  ("emit_short_binstring_maxlen_stringlen", "SHORT_BINSTRING", "string-length mutator at symbolic rate"),
